@@ -1,6 +1,95 @@
-import GB.C03.Spec
-/- C03 — property theorems. -/
+import GB.C03.Proofs
+/-
+  C03 — property theorems. Theorems only; helper lemmas live in Proofs*.lean.
+  `Tmpl` is the parsed template (`gwbased.Parse`, property C20), `Table` the routing table as a list of
+  (binding id, HTTP method, template) in iteration order, `routesOf` its routes with `MatchAndEscape` read
+  over the AST (`matchTmpl`); `C03_compiled_matcher` shows that is what the compiled pattern computes.
+-/
 open GB GB.C03
+
+/-- The gateway's validate-then-build `unescape` is the one-pass decoder of the spec, for every byte string
+    and both modes: each captured value is produced by exactly one decoding pass. -/
+theorem C03_unescape_once (multi : Bool) (s : Bytes) : unescape multi s = decodeOnce multi s :=
+  unescape_eq_decodeOnce multi s
+
+/-- matcher ↔ `Matches`, for every template with at most one `**` and every component list. -/
+theorem C03_matcher (t : Tmpl) (hd : deepCount t.segs ≤ 1) (comps : List Bytes) (b : Captures) :
+    matchTmpl t comps t.verb = .ok b ↔ Matches t comps t.verb b := by
+  rw [matchTmpl_own_verb, matchSegs_iff hd]
+  simp [Matches]
+
+/-- a template with a verb never matches a different verb; the matcher never faults;
+    it reports a malformed escape only when a component has one. -/
+theorem C03_matcher_other (t : Tmpl) (comps : List Bytes) (verb : Bytes) :
+    (t.verb ≠ [] → verb ≠ t.verb → matchTmpl t comps verb = .notMatch) ∧
+    matchTmpl t comps t.verb ≠ .fault ∧
+    (matchTmpl t comps t.verb = .malformed → ∃ c ∈ comps, ¬ WellEscaped c) := by
+  refine ⟨?_, ?_, ?_⟩
+  · intro h1 h2
+    have : t.verb ≠ verb := fun e => h2 e.symm
+    simp [matchTmpl, h1, this]
+  · rw [matchTmpl_own_verb]; exact matchSegs_ne_fault _
+  · rw [matchTmpl_own_verb]; exact matchSegs_malformed
+
+/-- One route step (verb detection on the last raw segment, stripping, matching) decides `PathMatches`. -/
+theorem C03_path_matches {ι : Type} (e : ι × Bytes × Tmpl) (hd : deepCount e.2.2.segs ≤ 1)
+    (segs : List Bytes) (last : Bytes) (hlast : segs.getLast? = some last) (b : Captures) :
+    stepRoute segs last (mkR e) = .ok b ↔ PathMatches e.2.2 segs b :=
+  stepRoute_iff e hd hlast b
+
+/-- Routed iff a binding of the same HTTP method matches; the first one in table order wins;
+    the captures are those of `PathMatches` (decoded once, by `decodeOnce`). -/
+theorem C03_route_iff {ι : Type} (tbl : Table ι) (hwf : ∀ e ∈ tbl, WF e.2.2) (m p : Bytes) (i : ι) (b : Captures) :
+    routePath (routesOf tbl) m (47 :: p) = .found i b ↔ FirstMatch tbl m (splitSlash p) i b := by
+  obtain ⟨last, hlast, h⟩ := routePath_slash tbl m p
+  rw [h]
+  exact iterTbl_found_iff tbl hwf m hlast i b
+
+/-- Everything else is an error: no binding matches, and `InvalidArgument` is only given to paths without
+    the leading slash or with a malformed percent-escape in some segment. -/
+theorem C03_else {ι : Type} (tbl : Table ι) (hwf : ∀ e ∈ tbl, WF e.2.2) (m path : Bytes) (c : Code)
+    (h : routePath (routesOf tbl) m path = .error c) :
+    (∀ p, path = 47 :: p → ¬ ∃ i b, FirstMatch tbl m (splitSlash p) i b) ∧
+    (c = .invalidArgument → (∀ p, path ≠ 47 :: p) ∨ ∃ p, path = 47 :: p ∧ ∃ s ∈ splitSlash p, ¬ WellEscaped s) := by
+  constructor
+  · rintro p rfl ⟨i, b, hf⟩
+    rw [(C03_route_iff tbl hwf m p i b).2 hf] at h
+    cases h
+  · intro hc
+    subst hc
+    match path, h with
+    | [], _ => left; intro p hp; cases hp
+    | 47 :: p, h =>
+      right
+      obtain ⟨last, hlast, he⟩ := routePath_slash tbl m p
+      rw [he] at h
+      exact ⟨p, rfl, iterTbl_invalid tbl m hlast h⟩
+    | x :: p, h =>
+      by_cases hx : x = 47
+      · subst hx
+        right
+        obtain ⟨last, hlast, he⟩ := routePath_slash tbl m p
+        rw [he] at h
+        exact ⟨p, rfl, iterTbl_invalid tbl m hlast h⟩
+      · left; intro q hq; cases hq; exact hx rfl
+
+/-- A path without the leading slash is `InvalidArgument`; a well-escaped path that no binding matches is `NotFound`. -/
+theorem C03_error_codes {ι : Type} (tbl : Table ι) (hwf : ∀ e ∈ tbl, WF e.2.2) (m : Bytes) :
+    (∀ path, (∀ p, path ≠ 47 :: p) → routePath (routesOf tbl) m path = .error .invalidArgument) ∧
+    (∀ p, (∀ s ∈ splitSlash p, WellEscaped s) → (¬ ∃ i b, FirstMatch tbl m (splitSlash p) i b) →
+      routePath (routesOf tbl) m (47 :: p) = .error .notFound) := by
+  constructor
+  · intro path h; exact routePath_no_slash _ m path h
+  · intro p hw hno
+    cases hr : routePath (routesOf tbl) m (47 :: p) with
+    | found i b => exact absurd ⟨i, b, (C03_route_iff tbl hwf m p i b).1 hr⟩ hno
+    | error c =>
+      cases c with
+      | notFound => rfl
+      | invalidArgument =>
+        rcases (C03_else tbl hwf m (47 :: p) _ hr).2 rfl with h | ⟨q, hq, s, hs, hns⟩
+        · exact absurd rfl (h p)
+        · cases hq; exact absurd (hw s hs) hns
 
 /-- What fix D2 removed: `/v/%2541` parses to Path `/v/%41`, RawPath empty; routing on Path decodes again. -/
 theorem C03_prefix_double_decode :
